@@ -26,8 +26,9 @@ Init == \E p \in Pool : LET e == EncodeProg(p) IN full = e /\ \E c \in 0..Len(e)
 DoFill == \E n \in ReadSizes : CanFill(s, n) /\ s' = Fill(s, n) /\ UNCHANGED full
 DoFillRest == Blocked(s) /\ s.rd < Len(s.file) /\ s' = Fill(s, Len(s.file) - s.rd) /\ UNCHANGED full
 DoEof == CanEof(s) /\ s' = FillEof(s) /\ UNCHANGED full
+DoFillLast == Blocked(s) /\ s.rd < Len(s.file) /\ s' = FillLast(s, Len(s.file) - s.rd) /\ UNCHANGED full     \* the rest together with the end
 DoStep == CanStep(s) /\ s' = StepL(s) /\ UNCHANGED full
-Next == DoFill \/ DoFillRest \/ DoEof \/ DoStep
+Next == DoFill \/ DoFillRest \/ DoFillLast \/ DoEof \/ DoStep
 Spec == Init /\ [][Next]_vars /\ WF_vars(Next)
 MaxRead == CHOOSE m \in ReadSizes : \A x \in ReadSizes : x <= m
 Window == /\ s.cons <= s.rd /\ s.rd <= Len(s.file)
